@@ -167,9 +167,10 @@ func main() {
 			paths = append(paths, p)
 		}
 		info := &types.Info{
-			Types: map[ast.Expr]types.TypeAndValue{},
-			Uses:  map[*ast.Ident]types.Object{},
-			Defs:  map[*ast.Ident]types.Object{},
+			Types:      map[ast.Expr]types.TypeAndValue{},
+			Uses:       map[*ast.Ident]types.Object{},
+			Defs:       map[*ast.Ident]types.Object{},
+			Selections: map[*ast.SelectorExpr]*types.Selection{},
 		}
 		conf := types.Config{Importer: imp, Error: func(err error) {}}
 		if _, err := conf.Check(lp.ImportPath, fset, files, info); err != nil {
@@ -430,14 +431,201 @@ func (r *rw) walkStmtList(v reflect.Value) {
 			_, isComm := s.(*ast.CommClause)
 			if _, empty := s.(*ast.EmptyStmt); !empty && !isCase && !isComm {
 				pos := r.fset.Position(s.Pos())
-				out = append(out, &ast.ExprStmt{X: call(r.vs("Y"),
+				args := []ast.Expr{
 					&ast.BasicLit{Kind: token.STRING, Value: strconv.Quote(r.base)},
-					&ast.BasicLit{Kind: token.INT, Value: strconv.Itoa(pos.Line)})})
+					&ast.BasicLit{Kind: token.INT, Value: strconv.Itoa(pos.Line)}}
+				// accesses to objects that are not safe for concurrent use (maps, *rand.Rand,
+				// buffers) are announced at the scheduling point in front of the statement
+				if accs := r.accesses(s, true); len(accs) > 0 {
+					out = append(out, &ast.ExprStmt{X: call(r.vs("TouchY"), append(args, accs...)...)})
+				} else {
+					out = append(out, &ast.ExprStmt{X: call(r.vs("Y"), args...)})
+				}
+			}
+		} else if _, isCase := s.(*ast.CaseClause); !isCase {
+			if _, isComm := s.(*ast.CommClause); !isComm {
+				// outside the statement-instrumented files only the rare library objects are tracked
+				if accs := r.accesses(s, false); len(accs) > 0 {
+					pos := r.fset.Position(s.Pos())
+					out = append(out, &ast.ExprStmt{X: call(r.vs("TouchY"), append([]ast.Expr{
+						&ast.BasicLit{Kind: token.STRING, Value: strconv.Quote("touch:" + r.base)},
+						&ast.BasicLit{Kind: token.INT, Value: strconv.Itoa(pos.Line)}}, accs...)...)})
+				}
 			}
 		}
 		out = append(out, r.rewriteStmt(s)...)
 	}
 	v.Set(reflect.ValueOf(out))
+}
+
+// exclusiveTypes: library types whose values must not be used by two goroutines at once.
+var exclusiveTypes = map[string]bool{"math/rand.Rand": true, "bytes.Buffer": true, "strings.Builder": true, "encoding/json.Encoder": true, "encoding/json.Decoder": true, "bufio.Writer": true, "bufio.Reader": true}
+
+// accesses lists, as vsched.Acc literals, the accesses statement s makes (in its own expressions,
+// not in nested blocks) to objects that are not safe for concurrent use: reads and writes of maps
+// held in struct fields or package variables (maps only when withMaps), method calls on values of
+// the exclusive library types. Object expressions are wrapped in closures, evaluated under recover.
+func (r *rw) accesses(s ast.Stmt, withMaps bool) []ast.Expr {
+	var roots []ast.Node
+	writes := map[ast.Expr]bool{}
+	markWrite := func(e ast.Expr) {
+		if ix, ok := unparen(e).(*ast.IndexExpr); ok {
+			writes[ix] = true
+		}
+	}
+	switch x := s.(type) {
+	case *ast.ExprStmt:
+		roots = append(roots, x.X)
+	case *ast.AssignStmt:
+		for _, l := range x.Lhs {
+			markWrite(l)
+			roots = append(roots, l)
+		}
+		for _, e := range x.Rhs {
+			roots = append(roots, e)
+		}
+	case *ast.IncDecStmt:
+		markWrite(x.X)
+		roots = append(roots, x.X)
+	case *ast.ReturnStmt:
+		for _, e := range x.Results {
+			roots = append(roots, e)
+		}
+	case *ast.DeclStmt:
+		roots = append(roots, x.Decl)
+	case *ast.IfStmt:
+		if x.Init != nil {
+			return r.accesses(x.Init, withMaps)
+		}
+		return nil // (the condition may short-circuit: not evaluated ahead of time)
+	case *ast.RangeStmt:
+		if withMaps {
+			if t := r.typeOf(x.X); t != nil {
+				if _, ok := t.Underlying().(*types.Map); ok && r.sharedMapExpr(x.X) {
+					return []ast.Expr{r.accLit(x.X, false, "range over map "+r.exprText(x.X))}
+				}
+			}
+		}
+		return nil
+	default:
+		return nil
+	}
+	var out []ast.Expr
+	seen := map[string]bool{}
+	add := func(obj ast.Expr, write bool, what string, addr bool) {
+		key := fmt.Sprint(write, what)
+		if seen[key] {
+			return
+		}
+		seen[key] = true
+		o := obj
+		if addr {
+			o = &ast.UnaryExpr{Op: token.AND, X: obj}
+		}
+		out = append(out, r.accLit(o, write, what))
+	}
+	for _, root := range roots {
+		ast.Inspect(root, func(n ast.Node) bool {
+			switch e := n.(type) {
+			case *ast.FuncLit:
+				return false
+			case *ast.BinaryExpr:
+				if e.Op == token.LAND || e.Op == token.LOR {
+					return false // may short-circuit: not evaluated ahead of time
+				}
+			case *ast.IndexExpr:
+				if !withMaps {
+					return true
+				}
+				if t := r.typeOf(e.X); t != nil {
+					if _, ok := t.Underlying().(*types.Map); ok && r.sharedMapExpr(e.X) {
+						w := writes[e]
+						kind := "read of map "
+						if w {
+							kind = "write to map "
+						}
+						add(e.X, w, kind+r.exprText(e.X), false)
+					}
+				}
+			case *ast.CallExpr:
+				if withMaps && len(e.Args) == 2 && r.isBuiltin(e.Fun, "delete") && r.sharedMapExpr(e.Args[0]) {
+					add(e.Args[0], true, "delete from map "+r.exprText(e.Args[0]), false)
+				}
+				sel, ok := e.Fun.(*ast.SelectorExpr)
+				if !ok {
+					return true
+				}
+				selection := r.info.Selections[sel]
+				if selection == nil || selection.Kind() != types.MethodVal || !isPure(sel.X) {
+					return true
+				}
+				recv := selection.Recv()
+				ptr := false
+				if p, ok := recv.(*types.Pointer); ok {
+					recv, ptr = p.Elem(), true
+				}
+				named, ok := recv.(*types.Named)
+				if !ok || named.Obj().Pkg() == nil || len(selection.Index()) != 1 {
+					return true
+				}
+				full := named.Obj().Pkg().Path() + "." + named.Obj().Name()
+				if !exclusiveTypes[full] {
+					return true
+				}
+				// only objects other goroutines can reach the same way: struct fields and
+				// package-level variables (a function's own local buffer is nobody else's)
+				if !r.sharedMapExpr(sel.X) {
+					return true
+				}
+				add(sel.X, true, full+"."+sel.Sel.Name+" on "+r.exprText(sel.X), !ptr)
+			}
+			return true
+		})
+	}
+	return out
+}
+
+// sharedMapExpr: an object held in a struct field or a package-level variable (pure expression).
+func (r *rw) sharedMapExpr(e ast.Expr) bool {
+	e = unparen(e)
+	if !isPure(e) {
+		return false
+	}
+	switch x := e.(type) {
+	case *ast.SelectorExpr:
+		if _, _, isPkg := r.pkgSel(x); isPkg {
+			return true
+		}
+		return r.info.Selections[x] != nil && r.info.Selections[x].Kind() == types.FieldVal
+	case *ast.Ident:
+		if v, ok := r.info.Uses[x].(*types.Var); ok && v.Parent() == v.Pkg().Scope() {
+			return true
+		}
+	}
+	return false
+}
+
+func (r *rw) exprText(e ast.Expr) string {
+	var b bytes.Buffer
+	printer.Fprint(&b, r.fset, e)
+	return b.String()
+}
+
+// accLit builds vsched.Acc{Obj: func() interface{} { return <obj> }, Write: w, What: "..."}.
+func (r *rw) accLit(obj ast.Expr, write bool, what string) ast.Expr {
+	w := "false"
+	if write {
+		w = "true"
+	}
+	fn := &ast.FuncLit{
+		Type: &ast.FuncType{Params: &ast.FieldList{}, Results: &ast.FieldList{List: []*ast.Field{{Type: &ast.InterfaceType{Methods: &ast.FieldList{}}}}}},
+		Body: &ast.BlockStmt{List: []ast.Stmt{&ast.ReturnStmt{Results: []ast.Expr{obj}}}},
+	}
+	return &ast.CompositeLit{Type: r.vs("Acc"), Elts: []ast.Expr{
+		&ast.KeyValueExpr{Key: ast.NewIdent("Obj"), Value: fn},
+		&ast.KeyValueExpr{Key: ast.NewIdent("Write"), Value: ast.NewIdent(w)},
+		&ast.KeyValueExpr{Key: ast.NewIdent("What"), Value: &ast.BasicLit{Kind: token.STRING, Value: strconv.Quote(what)}},
+	}}
 }
 
 func (r *rw) isConstOrNil(e ast.Expr) bool {
